@@ -18,6 +18,7 @@ def run(ctx):
         for m in MACHINES:
             jobs.append((exe, [m, 1 if ctx.thorough else 0], be))
     res = common.parallel(lambda j: common.run_harness(ctx, j[0], j[1], label=j[2]), jobs)
+    common.align_jobs(ctx, jobs, lambda j: j[2] in ("asm", "c32", "generic") and j[1][0] not in ("cppcopy",))
     for (rc, out, err), j in zip(res, jobs):
         if "HARNESS-NONDETERMINISM" in out:
             ctx.hard_errors.append(j)
